@@ -90,8 +90,14 @@ def attrDeps (h : Heap) (lang : Lang) (v : Nat) (vpcp : Option Nat) (subject : N
             | some i => ((h.kids vp).drop (i + 1)).filter (fun e => isPP h e)
     else []
 
+/-- `getattr(sp, "subject", None)`: the subject a clause has recorded (none when it has none) -/
+def subjectAttr (h : Heap) (sp : Nat) : Option Nat :=
+  match h.subject sp with
+  | none => none
+  | some subject => subject
+
 /-- the relative clause of a noun phrase: (relative pronoun, its clause, the verb of the clause, the subject the clause
-    has recorded) -/
+    has recorded — none when it has none) -/
 def npRel (h : Heap) (p : Nat) : Option (Nat × Nat × Nat × Option Nat) :=
   match h.getFromPath p [([.S, .SP], false), ([.Pro], false)] with
   | none => none
@@ -101,16 +107,12 @@ def npRel (h : Heap) (p : Nat) : Option (Nat × Nat × Nat × Option Nat) :=
     | some sp =>
       match h.getFromPath sp [([.VP], false), ([.V], false)] with
       | none => none
-      | some v =>
-        match h.subject sp with
-        | none => none
-        | some subject => some (pro, sp, v, subject)
+      | some v => some (pro, sp, v, subjectAttr h sp)
 
 /-- the nodes of the relative clause that agree with the antecedent `p`: the verb after a SUBJECT relative pronoun
     (English `who, which, that`, French `qui, lequel`, when the pronoun is the subject of its clause — or, English
     `that`, when the clause has no other subject) with its French attributes; the pronouns `lequel, duquel, auquel`
-    themselves.  (The English code also re-points the verb of an OBJECT relative — "the cats that she feed": a finding
-    of the harness; the specification does not ask for it.) -/
+    themselves. -/
 def npRelDeps (h : Heap) (p : Nat) : List Nat :=
   match npRel h p with
   | none => []
@@ -129,10 +131,16 @@ def npRelDeps (h : Heap) (p : Nat) : List Nat :=
 def npDeps (h : Heap) (p : Nat) : List Nat :=
   (nonHead h p).flatMap (fun ei => npDepsOf h (h.node p).lang ei.1) ++ npRelDeps h p
 
+/-- a word that makes its noun phrase plural: the English determiner `no`, the French adjective `quelques` -/
+def pluralMaker (h : Heap) (lang : Lang) (e : Nat) : Bool :=
+  match lang with
+  | .en => h.kind e = .D && h.lemmaOf e = s "no"
+  | .fr => h.kind e = .A && h.lemmaOf e = s "quelques"
+
 /-- the numbers imposed on the head by the child `e` at index `i` (head at `hi`): a numeral BEFORE the head gives its
-    grammatical number, the English determiner `no` (also inside an adjective phrase) gives plural -/
+    grammatical number, English `no` / French `quelques` (also inside an adjective phrase) give plural -/
 def numberWrites (h : Heap) (lang : Lang) (hi : Nat) (ei : Nat × Nat) : List Val :=
-  let isNo := fun (e : Nat) => lang = .en && h.kind e = .D && h.lemmaOf e = s "no"
+  let isNo := fun (e : Nat) => pluralMaker h lang e
   if ei.2 = hi then []
   else if h.kind ei.1 = .NO && ei.2 < hi then [h.gramNumber ei.1]
   else if isNo ei.1 then [.s ['p']]
@@ -168,16 +176,22 @@ def sSubject (h : Heap) (p : Nat) : Option Nat :=
         else some s0
 
 /-- **the agreement class of a clause**: the nodes that must share the record of the subject `subj`: the verb and
-    its VP (with the French attributes of a copula), or the verbs of a coordination of VPs -/
+    its VP with the French attributes of a copula; or, when the verb phrases are coordinated, for EVERY coordination
+    other than the subject that contains a VP: the verb (and VP) of each member and the French attributes of each -/
 def sDeps (h : Heap) (p subj : Nat) : List Nat :=
   let lang := (h.node p).lang
   match pwsFind h p .VP .V subj with
   | some (l, v) => l ++ attrDeps h lang v (h.getFromPath p [([.VP], false), ([.CP], false)]) subj
   | none =>
-    match h.getFromPath p [([.CP], false), ([.VP], false)], h.getConst p [.CP] with
-    | some _, some cp =>
-      (h.kids cp).flatMap (fun e => if (h.kind e).isPhrase then pwsTargets h e .VP .V subj else [])
-    | _, _ => []
+    (h.kids p).flatMap (fun cp =>
+      if h.kind cp = .CP && cp != subj && (h.getConst cp [.VP]).isSome then
+        (h.kids cp).flatMap (fun e =>
+          if (h.kind e).isPhrase then
+            match pwsFind h e .VP .V subj with
+            | some (l, v) => l ++ attrDeps h lang v (h.getFromPath e [([.CP], false)]) subj
+            | none => []
+          else [])
+      else [])
 
 /-! ### dependency nodes -/
 
